@@ -1,7 +1,7 @@
 (* C20 — key-level diff and keyed lookup respect both files' orders.
    Theorems only; each is closed by [exact] of a lemma proved in Proofs/. *)
 From Coq Require Import ZArith List Bool Permutation Sorted.
-From CL Require Import Base.Sx Base.Res Model.AddRemove Proofs.AddRemoveProofs.
+From CL Require Import Base.Sx Base.Res Model.AddRemove Proofs.AddRemoveProofs Proofs.AddRemoveSpec.
 Import ListNotations.
 
 Section C20.
@@ -32,6 +32,19 @@ Qed.
 Theorem C20_sorted : forall l r,
   StronglySorted ent_le (sort (order_map eqb l r)).
 Proof. exact (addremove_sorted eqb). Qed.
+
+(* the first sequence's order is kept *)
+Theorem C20_left_order : forall l r, NoDup l -> NoDup r ->
+  filter (fun k => mem eqb k l) (map snd (addremove eqb l r)) = l.
+Proof. exact (addremove_left_order eqb eqb_eq). Qed.
+
+(* each key found only in the second sequence is placed after the last key
+   that precedes it there and is also in the first (or in front when there is
+   none), such keys with the same anchor keeping their order: the output is
+   the independent recursive specification [spec] (Model/AddRemove.v) *)
+Theorem C20_anchor : forall l r, NoDup l -> NoDup r ->
+  addremove eqb l r = spec eqb l r.
+Proof. exact (addremove_eq_spec eqb eqb_eq). Qed.
 
 Context {E : Type} (key : E -> K).
 
